@@ -340,16 +340,19 @@ def run_check(modname: str, pid: str, tier: str, seed: int, nshards: int = 16) -
           f'violations={len(vio_lines)} known_seen={sum(known.values())} wall={wall:.1f}s')
     for line in kf_lines:
         print(line)
+    for path, b, m in vio_lines:
+        print(f'VIOLATION property={pid} replay={path}')
+        print(f'  bucket: {b}\n  {m[:600]}')
+    if vio_lines:
+        return 1
+    # a quiet run only counts if the generators produced what the property names
     if floor_fail:
         print(f'HARNESS-ERROR property={pid} generator floor not met: ' + '; '.join(floor_fail), file=sys.stderr)
         return 2
     if evals < 1 or len(nt) < 2:
         print(f'HARNESS-ERROR property={pid} vacuous run (evaluations={evals}, nontrivial={len(nt)})', file=sys.stderr)
         return 2
-    for path, b, m in vio_lines:
-        print(f'VIOLATION property={pid} replay={path}')
-        print(f'  bucket: {b}\n  {m[:600]}')
-    return 1 if vio_lines else 0
+    return 0
 
 
 def run_replay(modname: str, pid: str, path: str) -> int:
